@@ -2,7 +2,7 @@
 import numpy as np
 import symtorch
 from vlib import core, lincheck
-from harness import dtlib as DT
+from harness import dtlib as DT, dwtlib as D
 from harness import C03
 
 META = {
@@ -36,7 +36,7 @@ def case(cfg):
     def impl(pw, ts):
         f = pw.DTCWTForward(biort=cfg['biort'], qshift=cfg['qshift'], J=cfg['J'])
         i = pw.DTCWTInverse(biort=cfg['biort'], qshift=cfg['qshift'])
-        return [('rec', i(f(ts[0])))]
+        return [('rec', D.call_ctx(pw, cfg, lambda a: i(f(a[0])), ts))]
 
     def ref(arrs):
         x = arrs[0]
